@@ -22,7 +22,8 @@ ASSUMPTIONS = ['firmware layouts: crtp_commander_rpyt / crtp_commander_generic (
                'full-state rates are sent as value*1000 fixed point (unit as passed by the caller)']
 REQUIRED = ['mon.rpyt', 'mon.generic_setpoints', 'mon.full_state', 'mon.high_level', 'mon.localization', 'mon.platform',
             'mon.lpp', 'mon.refused', 'mon.headers', 'mon.legacy_versions', 'mon.xmode', 'mon.full_state_orientation_judged',
-            'mon.full_state_negated_orientation', 'mon.queued_packets_rechecked']
+            'mon.full_state_negated_orientation', 'mon.queued_packets_rechecked',
+            'mon.unrelated_platform_packets_after_negotiation']
 
 VERSIONS = (-1, 3, 4, 7, 8, 9, 10)
 SPECIAL = [0.0, -0.0, float('inf'), float('-inf'), float('nan'), 1e-45, 1e-39, 3.4028234663852886e38, 1e38, 1e39, -1e39,
@@ -130,6 +131,36 @@ def one(ctx, cf, rnd, version, xmode):
     import contextlib
     link = cf.link
     cf.platform._protocolVersion = version
+    if version >= 0 and rnd.random() < 0.5:
+        # the version as the firmware announces it, followed by unrelated traffic on the platform port (app-channel
+        # data, the echo of a platform command, a firmware-version answer): the negotiated version must survive it
+        from cflib.crtp.crtpstack import CRTPPacket as _P
+        cf.platform._protocolVersion = -1
+        q = _P()
+        q.set_header(13, 1)
+        q.data = bytes([0, version])
+        cf.platform._platform_callback(q)
+        for _k in range(rnd.randint(0, 3)):
+            q = _P()
+            kind = rnd.randrange(4)
+            if kind == 0:
+                q.set_header(13, 2)
+                q.data = bytes([0]) + struct.pack('<ff', rnd.uniform(-5, 5), rnd.uniform(-5, 5))      # app channel data
+            elif kind == 1:
+                q.set_header(13, 0)
+                q.data = bytes([rnd.choice((0, 1, 2)), rnd.choice((0, 1, 17))])                       # echo of a platform command
+            elif kind == 2:
+                q.set_header(13, 1)
+                q.data = bytes([1]) + b'2024.02'                                                     # firmware version string
+            else:
+                q.set_header(13, 3)
+                q.data = bytes([0, rnd.randrange(256)])
+            cf.platform._platform_callback(q)
+            ctx.count('mon.unrelated_platform_packets_after_negotiation')
+        if cf.platform.get_protocol_version() != version:
+            ctx.violate('cmd:negotiated-protocol-version-changed-by-unrelated-platform-traffic',
+                        {'negotiated': version, 'now': cf.platform.get_protocol_version()})
+            cf.platform._protocolVersion = version
     cf.commander.set_client_xmode(xmode)
     cmd = rnd.choice(('rpyt', 'rpyt', 'velw', 'zdist', 'hover', 'pos', 'full', 'stop', 'notify', 'takeoff', 'land',
                       'hlstop', 'goto', 'spiral', 'define', 'start', 'mask', 'extpos', 'extpose', 'estop', 'wdog', 'persist',
